@@ -32,6 +32,7 @@ import (
 	"fmt"
 	"os"
 	"path/filepath"
+	"reflect"
 	"sort"
 	"strings"
 	"time"
@@ -57,6 +58,50 @@ func parseOne(sql string, timeout time.Duration) (stmts []ast.Statement, err err
 	defer cancel()
 	stmts, err = parser.Parse(ctx, strings.NewReader(sql))
 	return
+}
+
+// selectInvariant walks the tree and reports the first *ast.SelectQuery outside inv_limit of C04_select:
+// LimitByLimit == nil -> LimitByOffset == nil, and LimitByLimit == nil && len(LimitBy) > 0 -> Offset == nil.
+func selectInvariant(v reflect.Value, depth int) string {
+	if depth > 2000 {
+		return ""
+	}
+	switch v.Kind() {
+	case reflect.Interface:
+		if v.IsNil() {
+			return ""
+		}
+		return selectInvariant(v.Elem(), depth+1)
+	case reflect.Ptr:
+		if v.IsNil() {
+			return ""
+		}
+		if sq, ok := v.Interface().(*ast.SelectQuery); ok {
+			if sq.LimitByLimit == nil && sq.LimitByOffset != nil {
+				return "SelectQuery with LimitByOffset but no LimitByLimit"
+			}
+			if sq.LimitByLimit == nil && len(sq.LimitBy) > 0 && sq.Offset != nil {
+				return "SelectQuery with LIMIT BY, Offset and no LimitByLimit"
+			}
+		}
+		return selectInvariant(v.Elem(), depth+1)
+	case reflect.Struct:
+		for i := 0; i < v.NumField(); i++ {
+			if v.Type().Field(i).PkgPath != "" {
+				continue
+			}
+			if d := selectInvariant(v.Field(i), depth+1); d != "" {
+				return d
+			}
+		}
+	case reflect.Slice:
+		for i := 0; i < v.Len(); i++ {
+			if d := selectInvariant(v.Index(i), depth+1); d != "" {
+				return d
+			}
+		}
+	}
+	return ""
 }
 
 func explainOne(stmt ast.Statement) (out string, panicked bool) {
@@ -232,6 +277,11 @@ func main() {
 					}
 				default:
 					for i, st := range stmts {
+						// the conditions under which count = emitted children is PROVED (C04_select: inv_limit) are
+						// properties of what the parser builds: check them on every statement it returns
+						if d := selectInvariant(reflect.ValueOf(st), 0); d != "" {
+							fmt.Fprintf(out, "%s\t%sINV:%s\n", hexOf(sql), idx(i), d)
+						}
 						text, p := explainOne(st)
 						if p {
 							fmt.Fprintf(out, "%s\t%sPANIC\n", hexOf(sql), idx(i))
